@@ -167,6 +167,77 @@ def run_writepath(ck, prop, tier, g_small, g_sim, n_sim, crash_points, restart=T
     return res
 
 
+
+# ---------------------------------------------------------------------------
+# the index update itself (C06 / C16 / C17): spec/IndexRace.tla
+
+IR_KEYS = {'KeySame': {'1': 'k', '2': 'k', '3': 'k'}, 'KeyMixed': {'1': 'k', '2': 'k', '3': 'j'}}
+IR_KINDS = {'C06': {'rest-view'}, 'C16': {'ack-not-shown'}, 'C17': {'rest-view', 'ack-not-shown', 'write-error'}}
+
+
+def ir_cfg(name, writers, keys, batch, atomic, invs='RestLWW StaysShown', props='AckShown', spec='Spec'):
+    return (name, """SPECIFICATION %s
+CONSTANTS G = {%s}  KeyOf <- %s  Batch = %s  AtomicIndex = %s
+INVARIANTS %s
+%s
+CHECK_DEADLOCK FALSE
+""" % (spec, ', '.join(str(g) for g in range(1, writers + 1)), keys, 'TRUE' if batch else 'FALSE', 'TRUE' if atomic else 'FALSE', invs,
+       ('PROPERTIES ' + props) if props else ''))
+
+
+def run_indexrace(ck, prop, tier):
+    """Concurrent writers (some on the same key) and one replication batch at the grain of Index.UpdateIndex:
+    reading the log and patching the map are separate steps of the pinned tree."""
+    thorough = tier == 'thorough'
+    r = vlib.tlc_check('MCIndexRace.tla', ir_cfg('IndexRace.cfg', 3, 'KeySame', True, True), prop + '-ir', timeout=600)
+    ck.require_model_ok(r, 'IndexRace: read and patch under the index lock, 3 writers on one key plus a batch')
+    log('  TLC IndexRace: %d distinct / %d generated, %.0fs' % (r['distinct'], r['generated'], r['wall']))
+    tot = {'behaviours': 0, 'steps': 0, 'violations': 0, 'drift': 0}
+    for stype in (['kv', 'doc'] if (thorough or prop == 'C17') else ['kv']):
+        bs, adversarial = [], []
+        for inv in ('RestLWW', 'StaysShown'):
+            m = vlib.tlc_check('MCIndexRace.tla', ir_cfg('IndexRace.mutant.cfg', 2, 'KeySame', inv == 'StaysShown', False, invs=inv, props=''), '%s-ir-mutant-%s' % (prop, inv))
+            ck.add_tlc(m, 'IndexRace with the log read before the lock (mutant specification), %s' % inv)
+            if m.get('violated') == inv and m.get('trace'):
+                bs.append({'id': 'stale-index-counterexample-' + inv, 'steps': m['trace'], 'batch': inv == 'StaysShown'})
+                adversarial.append('stale-index-counterexample-' + inv)
+            else:
+                ck.inconclusive.append('mutant specification (log read before the index lock) not refuted by TLC: vacuity guard failed')
+        for k, (keys, batch) in enumerate([('KeySame', True), ('KeyMixed', True), ('KeySame', False)]):
+            sims, _ = vlib.tlc_simulate('MCIndexRace.tla', ir_cfg('IndexRace.sim.cfg', 3, keys, batch, True, invs='RestLWW', props='', spec='SimSpec'),
+                                        '%s-ir-sim%d' % (prop, k), 40 if thorough else 6, 20, SEED * 19 + k)
+            for b in sims:
+                b['keys'], b['batch'] = keys, batch
+                for st in b['steps']:
+                    st['action'] = {'SWIndexWait': 'WIndexWait', 'SBIndexWait': 'BIndexWait', 'SWIndexRead': 'WIndexRead', 'SBIndexRead': 'BIndexRead'}.get(st['action'], st['action'])
+            bs += sims
+        for b in bs:
+            acts = [(s['action'], tuple(s['args'])) for s in b['steps']]
+            # non-trivial: an index update begins while another call or the batch is between its append/join and its return
+            if sum(1 for a, _ in acts if a in ('WIndexRead', 'BIndexRead')) >= 2 and any(a in ('WIndexWait', 'BIndexWait', 'SWIndexWait', 'SBIndexWait') for a, _ in acts):
+                ck.distinct.add(vlib.beh_signature(b))
+        groups = {}
+        for b in bs:
+            groups.setdefault((b.get('keys', 'KeySame'), b.get('batch', True)), []).append(b)
+        for (keys, batch), sub in sorted(groups.items()):
+            inp = {'property': prop, 'seed': SEED, 'type': stype, 'keys': IR_KEYS[keys], 'batch': batch, 'behaviours': sub, 'adversarial': adversarial}
+            res = vlib.run_vh('indexrace', inp, tag='%s-ir-%s' % (prop, stype), timeout=600 if not thorough else 2400)
+            allv = res.get('violations', [])
+            res['violations'] = [v for v in allv if v['kind'] in IR_KINDS[prop]]
+
+            def payload(v, inp=inp, sub=sub):
+                b = [x for x in sub if x['id'] == v['behaviour']]
+                return {'command': 'indexrace', 'input': dict(inp, behaviours=b), 'violation': v, 'kinds': sorted(IR_KINDS[prop])}
+            ck.add_harness(res, payload, 'indexrace %s' % stype)
+            if not res.get('inconclusive'):
+                ck.traces_validated += res.get('behaviours', 0)
+            tot['behaviours'] += res.get('behaviours', 0)
+            tot['steps'] += res.get('steps', 0)
+            tot['violations'] += len(res['violations'])
+            tot['drift'] += res.get('stats', {}).get('drift', 0)
+    ck.extra['indexrace_behaviours'] = tot['behaviours']
+    log('  indexrace: %(behaviours)d behaviours, %(steps)d steps, %(violations)d violations, drift %(drift)d' % tot)
+
 def c17(prop, tier):
     ck = Check(prop, tier)
     thorough = tier == 'thorough'
@@ -174,6 +245,7 @@ def c17(prop, tier):
                'replication batches forced on a real store with gates, then close/reopen/load; non-trivial = behaviour in which '
                'two calls, or a call and a batch, overlap')
     run_writepath(ck, prop, tier, 3, [2, 3, 4, 5] if not thorough else [2, 3, 4, 5, 6, 8], 12 if not thorough else 80, crash_points=False)
+    run_indexrace(ck, prop, tier)
     return ck.finish()
 
 
